@@ -161,6 +161,13 @@ fn recurse_single(
             expected
         }
         Node::Player(player) => {
+            #[cfg(cfr_verif)]
+            cfr_verif_seam::visit(
+                cfr_verif_seam::VISIT_SINGLE,
+                player.num == PlayerNum::Two,
+                player.infoset,
+                node as *const Node as usize,
+            );
             // get infoset
             let mut info = player.num.ind(&player_infosets)[player.infoset].borrow_mut();
             info.update_cum_strat(*player.num.ind(&p_player));
@@ -268,6 +275,13 @@ fn recurse_multi(
                 expected
             }
             Node::Player(player) => {
+                #[cfg(cfr_verif)]
+                cfr_verif_seam::visit(
+                    cfr_verif_seam::VISIT_MULTI,
+                    player.num == PlayerNum::Two,
+                    player.infoset,
+                    node as *const Node as usize,
+                );
                 // get infoset
                 let info = &player.num.ind(&player_infosets)[player.infoset];
                 info.update_cum_strat(*player.num.ind(&p_player));
